@@ -277,7 +277,7 @@ def run(rng, res, tier, shard, nshards):
         f = check(case, res)
         res.count('random-cases')
         res.case(digest(case) if nontrivial(case) else None)
-        if res.evaluations % 1999 == 11:
+        if len(res.samples) < 3 and nontrivial(case):
             res.sample({'nodes': [(nd['type'], nd['is_viable'], nd['is_necessary']) for nd in desc['nodes']][:10], 'edges': desc['edges'][:20], 'attackers': atts[:2]})
         report(f, case)
     if budget.timed_out():
